@@ -12,7 +12,9 @@
   Everything is in the namespace `EG.Joins` (the fill-only / one-pixel triangle model of the `tri`
   topic has its own `Triangle`; this one carries the join code for every width).
   Colours are `Nat`s; a style is `(fill?, stroke?, width, alignment)`.
-  Outer `none` = a loop bound of `Line::extents` was exceeded ("stuck").
+  Outer `none` = a loop bound of `Line::extents` or of `StyledPixelsIterator::next` was exceeded
+  ("stuck"); it never happens: `triStyledBoundingBox_total`, `triDraw_total`, `triPixels_total`
+  (EG/Lemmas/JoinsTotalTri.lean), for every triangle and style.
   `ScanlineIterator::next` is not fused: a row without any intersection ends a `for` loop
   (`toList` = what the `for` loop of `draw_styled` / `pixels()` sees).
 -/
